@@ -189,7 +189,9 @@ impl Prop for C20 {
     }
     fn strategy(&self, tier: Tier) -> BoxedStrategy<Case> {
         use engine::Prop as _;
-        let mk = |x: D, y: D, i: i128, n: i16, mode: u8, s: String| Case { x, y, i, n, mode, s };
+        // operands stay inside the documented domain (|coefficient| <= 2^127-1, |i| <= 2^127-1)
+        let dom = |d: D| D::new(d.c.clamp(-MAXC, MAXC), d.s);
+        let mk = move |x: D, y: D, i: i128, n: i16, mode: u8, s: String| Case { x: dom(x), y: dom(y), i: i.clamp(-MAXC, MAXC), n, mode, s };
         let rhs = |y: Rhs| -> (D, i128) {
             match y {
                 Rhs::Dec(d) => (d, d.c % 1000),
